@@ -38,7 +38,7 @@ bool divides_upoly(const UIntPoly &a, const UIntPoly &b,
     integer_class q, r;
     unsigned int a_deg, b_deg;
 
-    while (b_poly.size() >= a_poly.size()) {
+    while (not b_poly.empty() and b_poly.degree() >= a_poly.degree()) {
         a_deg = a_poly.degree();
         b_deg = b_poly.degree();
 
